@@ -128,7 +128,10 @@ OpsOn(n) ==
   THEN {Op("set", n, Whole, v) : v \in WholeVals} \cup {Op("unset", n, Whole, NS)}
        \cup UNION {{Op("setf", n, k, v) : v \in FieldValsFor(k)} : k \in KeySet} \cup {Op("unsetf", n, k, NS) : k \in KeySet}
        \cup {Op("add", n, Whole, v) : v \in AddVals}
-       \cup {Op("app", n, k, v) : k \in {Whole, <<"a">>}, v \in AppVals}
+       \cup {Op("app", n, Whole, v) : v \in AppVals}
+       \* (a newline in a sub-field value is a named deviation: the value is cut after quoting, which leaves an
+       \* unbalanced quote behind - not combined with +=)
+       \cup {Op("app", n, <<"a">>, v) : v \in {x \in AppVals : \A i \in 1..Len(x.s) : x.s[i] # NL}}
   ELSE {Op("set", n, Whole, vX), Op("set", n, Whole, vE), Op("unset", n, Whole, NS),
         Op("setf", n, <<"a">>, vX), Op("unsetf", n, <<"a">>, NS)}
 SmallOps == {Op("set", n, Whole, v) : n \in WriteSp, v \in {vX, vE}} \cup {Op("unset", n, Whole, NS) : n \in WriteSp}
